@@ -86,7 +86,7 @@ def plan(tier, seed):
             a.append({"gen": "a_flip", "config": name, "seed": seed, "shard": s, "nshards": nshards, "stride": 1,
                       "masks": [0x01, 0x80, 0xFF] if quick else ALL_MASKS})
     # (c)
-    ncases, per = (8000, 100) if quick else (200000, 500)
+    ncases, per = (6000, 100) if quick else (200000, 500)
     base = seed * 1000003
     c = [{"gen": "c_matrix", "range": [base + i, base + i + per]} for i in range(0, ncases, per)]
     # (d)
